@@ -35,7 +35,12 @@ def run_case(case):
     """case = dict(routine, A(list), itr, seed, D(optional list), B(optional list)).
     Returns dict(status, out..., draws, fails=[(predicate, info)], extra={...})."""
     bct = import_bct()
-    r = case['routine']; A = np.array(case['A'], dtype=float); n = len(A)
+    r = case['routine']; den = case.get('den', 1)
+    A = np.array(case['A'], dtype=float) / den; n = len(A)      # den is a power of two: exact
+    if case.get('order') == 'F':
+        A = np.asfortranarray(A)
+    elif case.get('order') == 'T':
+        A = np.ascontiguousarray(A.T).T                          # transposed view of a C array
     rec = Recorder(case['seed'])
     t = case.get('t', 4.0)
     A0 = A.copy()
@@ -70,6 +75,11 @@ def run_case(case):
         R = np.asarray(out, dtype=float); eff = None
     else:
         R, eff = out; R = np.asarray(R, dtype=float)
+    if den != 1:
+        # report results on the integer scale of case['A'] (exact: den is a power of two)
+        R = R * den; A = A * den
+        if r in LAT:
+            res['Rrp'] = (np.asarray(Rrp, dtype=float) * den).tolist(); Rrp = np.asarray(Rrp, dtype=float) * den
     res['R'] = R.tolist(); res['eff'] = None if eff is None else int(eff)
     F = res['fails']
     Ab = A != 0; Rb = R != 0
@@ -211,6 +221,18 @@ def gen_cases(rs, tier, routines=ROUTINES):
             if not two_disjoint_edges(A, und):
                 continue
             c = {'routine': r, 'A': A.tolist(), 'itr': int(rs.randint(0, 4)), 'seed': int(rs.randint(2 ** 31))}
+            u = rs.rand()
+            if u < .25 and wmax != 1:
+                # representation axis: the same weights in tiny units (all or some entries below 1e-8): "weighted"
+                # includes arbitrarily small weights; the model sees the integers, bct the exact dyadic floats
+                c['den'] = int(2 ** int(rs.choice([30, 40]))); c['itr'] = max(1, c['itr'])
+                if rs.rand() < .5:
+                    bigm = rs.rand(n, n) < .5
+                    if und:
+                        bigm = np.triu(bigm, 1); bigm = bigm | bigm.T
+                    c['A'] = (A * np.where(bigm, c['den'], 1)).tolist()      # mixed scales: some unit-scale, some tiny
+            elif u < .4:
+                c['order'] = str(rs.choice(['F', 'T']))
             if r == 'partial_und':
                 c['B'] = rand_graph(rs, n, float(rs.choice([0, .2, .5])), False).tolist()
                 c['itr'] = int(rs.randint(0, 6))
